@@ -458,7 +458,7 @@ class SubsampledArray(CompressedArray):
 
         return dependent_tie_points
 
-    def _conformed_interpolation_subarea_flags(self):
+    def _conformed_interpolation_subarea_flags(self, conformed=None):
         """Return interpolation_subarea_flag interpolation parameters.
 
         See CF section 3.5 "Flags" and Appendix J "Coordinate
@@ -467,6 +467,15 @@ class SubsampledArray(CompressedArray):
         .. versionadded:: (cfdm) 1.10.0.0
 
         .. seealso:: `_conformed_parameters`
+
+        :Parameters:
+
+            conformed: `Data`, optional
+                The data of the interpolation_subarea_flags
+                interpolation parameter after having been conformed
+                to the tie point dimensions by
+                `_conformed_parameters`. By default the data are
+                used as they are stored.
 
         :Returns:
 
@@ -498,7 +507,10 @@ class SubsampledArray(CompressedArray):
 
         flag_meanings = flag_meanings.split()
 
-        parameter = parameter.data
+        if conformed is None:
+            parameter = parameter.data
+        else:
+            parameter = conformed
 
         for name in self._flag_names:
             if name not in flag_meanings:
@@ -575,7 +587,11 @@ class SubsampledArray(CompressedArray):
 
                 parameters[term] = parameter
 
-            parameters.update(self._conformed_interpolation_subarea_flags())
+            parameters.update(
+                self._conformed_interpolation_subarea_flags(
+                    parameters.get("interpolation_subarea_flags")
+                )
+            )
             parameters.pop("interpolation_subarea_flags", None)
 
         return parameters
